@@ -12,6 +12,10 @@ pub(super) mod constants {
     pub(super) const BUF_SIZE: usize = 4 * KB;
     /// Random polynomial maximum tries.
     pub(super) const RAND_POLY_MAX_TRIES: i32 = 1_000_000;
+    /// Smallest supported minimum chunk size: the chunker carries up to `BUF_SIZE - 1` read-ahead bytes
+    /// over into the next chunk and pre-fills the 64 byte rolling hash window from the end of the
+    /// first `chunk_min_size` bytes, so smaller values make it panic or emit oversized chunks.
+    pub(super) const MIN_CHUNK_MIN_SIZE: usize = BUF_SIZE;
 }
 
 pub(crate) fn check_rabin_params(
@@ -37,6 +41,14 @@ pub(crate) fn check_rabin_params(
             ErrorKind::Unsupported,
             "Chunk max size must be larger or equal than the chunk size.",
         ));
+    }
+    if chunk_min_size < constants::MIN_CHUNK_MIN_SIZE {
+        return Err(RusticError::new(
+            ErrorKind::Unsupported,
+            "Chunk min size must be at least {min} bytes for the rabin chunker. chunk min size = {chunk_min_size}.",
+        )
+        .attach_context("min", constants::MIN_CHUNK_MIN_SIZE.to_string())
+        .attach_context("chunk_min_size", chunk_min_size.to_string()));
     }
     Ok(())
 }
